@@ -5,6 +5,8 @@ CONSTANTS
   Values <- TValues
   KindOf <- TKind
   HSlots <- TSlots
+  Doors = {}
+  BDValues = {}
   Depth = 0
   Emit = FALSE
   CrossKind = FALSE
